@@ -21,6 +21,7 @@ import (
 	"verif/internal/c15"
 	"verif/internal/c16"
 	"verif/internal/c17"
+	"verif/internal/c18"
 	"verif/internal/c19"
 )
 
@@ -42,6 +43,7 @@ func init() {
 	monitors["C15"] = c15.Run
 	monitors["C16"] = c16.Run
 	monitors["C17"] = c17.Run
+	monitors["C18"] = c18.Run
 	monitors["C19"] = c19.Run
 }
 
